@@ -212,11 +212,15 @@ def extract_entity(defs, consts):
     # cdata literals
     body = fn_body(src, "serialize_cdata", "cdata literals")
     ps = [unescape(p) for p in re.findall(r'push_str\(\s*"((?:\\.|[^"\\])*)"\s*\)', body)]
-    if len(ps) != 3:
-        raise ExtractError(f"cdata literals: expected 3 push_str literals in serialize_cdata, found {len(ps)}")
+    if len(ps) != 4:
+        raise ExtractError(f"cdata literals: expected 4 push_str literals in serialize_cdata (open, ]]> split, CR split, close), found {len(ps)}")
+    arms = {m.group(1) for m in re.finditer(r"'((?:\\.|[^\\'])+)'\s*=>", body)}
+    if arms != {"]", ">", "\\r"}:
+        raise ExtractError(f"serialize_cdata: expected exactly the arms ']' '>' '\\r' and _, found {sorted(arms)}")
     defs.append(f"def cdataOpen : List Char := {lean_str(ps[0])}\n")
     defs.append(f"def cdataSplit : List Char := {lean_str(ps[1])}\n")
-    defs.append(f"def cdataClose : List Char := {lean_str(ps[2])}\n")
+    defs.append(f"def cdataCr : List Char := {lean_str(ps[2])}\n")
+    defs.append(f"def cdataClose : List Char := {lean_str(ps[3])}\n")
     consts["cdata"] = ps
 
 
@@ -630,6 +634,182 @@ def extract_html5(defs, consts):
     defs.append(f"/-- The bytes `Html5::serialize_write_with_normalizer` writes first (src/serialize.rs). -/\ndef htmlDoctype : List Char := {lean_str(unescape(m.group(1)))}\n")
     consts["htmlDoctype"] = unescape(m.group(1))
 
+
+# ---------------------------------------------------------------------------------------------
+# C12: `struct Xot` — field list, types, and the ownership argument for `#[derive(Clone)]`
+
+OWNED_EXTERNAL = {
+    # std / external containers that own their contents and whose Clone is a deep copy
+    "String", "Vec", "Option", "HashMap", "HashSet", "BTreeMap", "BTreeSet", "VecDeque", "Box",
+    "Arena", "NodeId",  # indextree: Vec-backed arena, Copy index + stamp
+    "bool", "char", "u8", "u16", "u32", "u64", "u128", "usize", "i8", "i16", "i32", "i64", "i128", "isize",
+    "f32", "f64",
+}
+SHARING = [r"\bRc\b", r"\bArc\b", r"\bWeak\b", r"&", r"\*\s*const\b", r"\*\s*mut\b", r"\bCow\b", r"\bdyn\b", r"'",
+           r"\bNonNull\b", r"\bstatic\b", r"\bRefCell\b", r"\bCell\b", r"\bMutex\b", r"\bRwLock\b", r"\bfn\b"]
+
+
+def rust_sources():
+    out = {}
+    for root, _d, files in os.walk(os.path.join(REPO, "src")):
+        for f in files:
+            if f.endswith(".rs"):
+                rel = os.path.relpath(os.path.join(root, f), REPO)
+                out[rel] = strip_comments(read(rel))
+    return out
+
+
+def balanced(src, i, open_c, close_c):
+    """src[i] == open_c; returns index just after the matching close."""
+    depth = 0
+    j = i
+    while j < len(src):
+        if src[j] == open_c:
+            depth += 1
+        elif src[j] == close_c:
+            depth -= 1
+            if depth == 0:
+                return j + 1
+        j += 1
+    raise ExtractError("unbalanced " + open_c)
+
+
+def local_type_defs(sources):
+    """name -> dict(kind, body (text holding the component types), derives, file) for every
+    `type`, `struct`, `enum` of the crate (test modules included: harmless)."""
+    defs = {}
+    for rel, src in sources.items():
+        for m in re.finditer(r"\btype\s+(\w+)\s*(?:<[^=]*>)?\s*=\s*([^;]+);", src):
+            defs.setdefault(m.group(1), []).append({"kind": "type", "body": m.group(2), "derives": None, "file": rel})
+        for m in re.finditer(r"((?:#\[[^\]]*\]\s*)*)(?:pub(?:\([^)]*\))?\s+)?(struct|enum)\s+(\w+)", src):
+            attrs, kind, name = m.groups()
+            j = m.end()
+            while j < len(src) and src[j].isspace():
+                j += 1
+            generics = ""
+            if j < len(src) and src[j] == "<":
+                e = balanced(src, j, "<", ">")
+                generics = src[j + 1:e - 1]
+                j = e
+            k = j
+            while k < len(src) and src[k] not in "{(;":
+                k += 1
+            if k >= len(src):
+                continue
+            opener = src[k]
+            if opener == ";":
+                body = ""
+            else:
+                end = balanced(src, k, opener, "}" if opener == "{" else ")")
+                body = src[k + 1:end - 1]
+            derives = set()
+            for d in re.finditer(r"derive\(([^)]*)\)", attrs):
+                derives |= {x.strip() for x in d.group(1).split(",") if x.strip()}
+            # generic parameters (their bounds are trait names, not component types)
+            params = set()
+            depth = 0
+            cur = ""
+            for ch in generics + ",":
+                if ch == "<":
+                    depth += 1
+                elif ch == ">":
+                    depth -= 1
+                if ch == "," and depth == 0:
+                    pm = re.match(r"\s*(\w+)", cur)
+                    if pm:
+                        params.add(pm.group(1))
+                    cur = ""
+                else:
+                    cur += ch
+            defs.setdefault(name, []).append({"kind": kind, "body": body, "derives": derives, "file": rel, "params": params})
+    return defs
+
+
+def struct_fields(body, what):
+    fields = []
+    depth = 0
+    cur = ""
+    for ch in body:
+        if ch in "<([{":
+            depth += 1
+        elif ch in ">)]}":
+            depth -= 1
+        if ch == "," and depth == 0:
+            fields.append(cur)
+            cur = ""
+        else:
+            cur += ch
+    if cur.strip():
+        fields.append(cur)
+    out = []
+    for f in fields:
+        f = re.sub(r"#\[[^\]]*\]", "", f).strip()
+        m = re.fullmatch(r"(?:pub(?:\([^)]*\))?\s+)?(\w+)\s*:\s*(.+)", f, flags=re.S)
+        if not m:
+            raise ExtractError(f"{what}: cannot read field `{f[:60]}`")
+        out.append((m.group(1), re.sub(r"\s+", " ", m.group(2)).strip()))
+    return out
+
+
+def extract_xot_fields(defs_out, consts):
+    sources = rust_sources()
+    tdefs = local_type_defs(sources)
+    xots = tdefs.get("Xot", [])
+    xot = xots[0] if len(xots) == 1 else None
+    if not xot or xot["kind"] != "struct" or xot["file"] != os.path.join("src", "xotdata.rs"):
+        raise ExtractError("xotFields: `struct Xot` not found in src/xotdata.rs")
+    if "Clone" not in (xot["derives"] or set()):
+        raise ExtractError("xotFields: `struct Xot` does not `#[derive(Clone)]`")
+    manual = [rel for rel, src in sources.items() if re.search(r"\bimpl\b[^{;]*\bClone\s+for\s+Xot\b", src)]
+    if manual:
+        raise ExtractError(f"xotFields: manual `impl Clone for Xot` in {manual}")
+    fields = struct_fields(xot["body"], "xotFields")
+    if not fields:
+        raise ExtractError("xotFields: `struct Xot` has no named fields")
+    rows = []
+    for fname, ftype in fields:
+        # transitive closure of the crate-local types mentioned by the field
+        seen = set()
+        todo = [("<field>", ftype, set())]
+        texts = []
+        while todo:
+            owner, text, params = todo.pop()
+            texts.append((owner, text))
+            for pat in SHARING:
+                if re.search(pat, text):
+                    raise ExtractError(f"xotFields: field `{fname}: {ftype}` could share ownership: `{owner}` contains `{re.search(pat, text).group(0)}` ({text.strip()[:80]})")
+            for ident in set(re.findall(r"[A-Za-z_]\w*", text)):
+                if ident in seen or ident in params or ident in ("pub", "crate", "super", "self", "Self", "std", "collections", "ahash", "indextree", "in"):
+                    continue
+                if ident in tdefs:
+                    seen.add(ident)
+                    # several definitions may share a name (modules): every one of them is checked
+                    for d in tdefs[ident]:
+                        if d["kind"] != "type":
+                            if "Clone" not in (d["derives"] or set()):
+                                raise ExtractError(f"xotFields: `{ident}` ({d['file']}, reached from field `{fname}`) does not derive Clone: its clone is hand-written or absent")
+                        body = d["body"]
+                        if d["kind"] == "struct" and ":" in body:
+                            comps = " , ".join(t for _n, t in struct_fields(body, f"xotFields/{ident}"))
+                        elif d["kind"] == "enum":
+                            # variant names are not types: keep only what is inside (...) or {...}
+                            comps = " , ".join(re.findall(r"\(([^()]*)\)", body)) + " , " + " , ".join(
+                                t for blk in re.findall(r"\{([^{}]*)\}", body) for _n, t in struct_fields(blk, f"xotFields/{ident}"))
+                        else:
+                            comps = re.sub(r"\bpub(?:\([^)]*\))?", "", body)
+                        todo.append((f"{ident} ({d['file']})", comps, d.get("params", set())))
+                elif ident in OWNED_EXTERNAL:
+                    seen.add(ident)
+                elif re.fullmatch(r"[a-z_]\w*", ident):
+                    continue  # path segment / field-ish lowercase word
+                else:
+                    raise ExtractError(f"xotFields: type `{ident}` (reached from field `{fname}: {ftype}` via `{owner}`) is neither defined in the crate nor a known owning type")
+        rows.append((fname, ftype, True))
+    body = ", ".join(f"({lean_str(n)}, {lean_str(t)}, {'true' if o else 'false'})" for n, t, o in rows)
+    defs_out.append("/-- `struct Xot` (xotdata.rs): field, type, \"owned\" = no component type in the transitive closure of\n    the crate's own definitions can share ownership (Rc, Arc, references, raw pointers, Cow, dyn …)\n    and every crate type on the way derives Clone. -/\n"
+                    f"def xotFields : List (List Char × List Char × Bool) :=\n  [{body}]\n")
+    defs_out.append("def xotDerivesClone : Bool := true\n")
+    consts["xotFields"] = [[n, t] for n, t, _o in rows]
 
 
 # every function named extract_* is an extractor, in definition order
